@@ -10,7 +10,7 @@
    The spec decides, for every placeholder, the RENDER PLAN (sign flag, precision, verb) - and, when the
    value is an exact decimal with no more fraction digits than the precision, the digits themselves. *)
 EXTENDS Integers, Sequences, FiniteSets, TLC, Json
-CONSTANTS MaxLen
+CONSTANTS MaxLen, DirLen
 Sigma == {"x", "{", "}", "#", "+", ".", "2", "E", "%"}
 RECURSIVE StrUpTo(_)
 StrUpTo(n) == IF n = 0 THEN {<<>>} ELSE LET S == StrUpTo(n - 1) IN S \cup {Append(t, c) : t \in {u \in S : Len(u) = n - 1}, c \in Sigma}
@@ -39,7 +39,13 @@ VARIABLES tpl, pos, state, segs, cur, err
 vars == <<tpl, pos, state, segs, cur, err>>
 \* plus a few templates with a very long precision
 LongPrec == {<<"{", "#", ".">> \o [q \in 1..n |-> "2"] \o <<"}">> : n \in {3, 8, 12, 20, 25}} \cup {<<"{", "#", "+", ".">> \o [q \in 1..n |-> "2"] \o <<"E", "}">> : n \in {10, 22}}
-Init == tpl \in StrUpTo(MaxLen) \cup LongPrec /\ pos = 1 /\ state = "begin" /\ segs = <<>> /\ cur = <<>> /\ err = ""
+\* plus every single placeholder whose directive is a string of up to DirLen directive symbols (the directive grammar
+\* has more depth than a template of MaxLen symbols reaches: {#+.22E} , {#.2E2} , {#.2%%} ...)
+DSigma == {"#", "+", ".", "2", "E", "%"}
+RECURSIVE DirUpTo(_)
+DirUpTo(n) == IF n = 0 THEN {<<>>} ELSE LET S == DirUpTo(n - 1) IN S \cup {Append(t, c) : t \in {u \in S : Len(u) = n - 1}, c \in DSigma}
+OnePh == {<<"{">> \o d \o <<"}">> : d \in DirUpTo(DirLen)}
+Init == tpl \in StrUpTo(MaxLen) \cup LongPrec \cup OnePh /\ pos = 1 /\ state = "begin" /\ segs = <<>> /\ cur = <<>> /\ err = ""
 Lit(s) == [t |-> "lit", s |-> s]
 Ph(d) == [t |-> "ph", d |-> d, plan |-> Plan(d)]
 Step ==
